@@ -18,7 +18,7 @@ import ast
 
 from ..model import AnchorError, norm, walk_no_nested
 from ..kinds import KindAnalysis, TICK_TIME, FORWARDED, K
-from ..util import cfg_of, call_attr, arg, assigned_attrs
+from ..util import cfg_of, call_attr, arg, assigned_attrs, canon_text
 
 EXPLANATION = __doc__
 SINKS = {"set_value": (1, "tick_time"), "set_value_and_unit": (2, "tick_time"),
@@ -66,7 +66,7 @@ def run(ctx) -> None:
             targ = arg(c, pos, kw)
             n_sinks += 1
             ctx.analysed(f)
-            inst = f"{f.short}: {norm(c)}"
+            inst = f"{f.short}: {canon_text(c, f)}"
             if targ is None:
                 # *args / **kwargs forwarding
                 forwarded = any(isinstance(a, ast.Starred) for a in c.args) or any(k.arg is None for k in c.keywords)
@@ -110,7 +110,7 @@ def run(ctx) -> None:
                 continue  # R16b
             n_sinks += 1
             ctx.analysed(f)
-            inst = f"{f.short}: {norm(st)}"
+            inst = f"{f.short}: {canon_text(st, f)}"
             kinds = ka.expr_kind(v, f)
             if kinds == K({TICK_TIME}):
                 ctx.ok("R16a", inst, {"rule": "R16a", "site": inst, "kind": sorted(kinds)})
